@@ -29,16 +29,23 @@ ASSUMPTIONS = ["all text is printable ASCII",
                "locations the layout judgement is correspondence with C02's text, not an independent expectation",
                "the independent reader accepts lines of any length (Build never wraps qualifier values; a 600-letter /translation is one line) and "
                "reads the LOCUS line by tokens, not by NCBI's LOCUS columns (Build separates the fields by five blanks)",
-               "a known finding is identified by the input class and by WHERE the reply fails, not by the bytes the present code writes: a failing "
-               "record of class C03-blank-run-at-wrap (syntactic, computed with the writer MODEL's WrapString) is tagged when every text read back "
-               "(strict reader, Parse(Build(x)), Write/Read) is the one given, except that a text that loses a blank at a wrap point may differ in its "
-               "blanks only; a failing name-less record is tagged C03-nameless-locus when it fails in the LOCUS line / locus fields only (with the LOCUS "
-               "line of the same record under a placeholder name in its place the strict reader returns the record; Parse(Build(x)) agrees outside the "
-               "locus). A difference anywhere else is an ordinary FAIL. On a tagged case the writer's bytes are not compared with the model's (the model "
-               "mirrors the defect, which the property does not demand). If a reply on an input of either class PASSES (the recorded defect was repaired) and "
+               "a known finding is identified by the input class and by WHERE the reply fails, not by the bytes the present code writes, and only what the "
+               "finding names is excused. C03-blank-run-at-wrap (syntactic class, writer MODEL's WrapString): every text read back (strict reader, "
+               "Parse(Build(x)), Write/Read) is the one given except that a run of blanks which WrapString(a, 68) replaces by a line break may be shorter "
+               "(>= 1 blank); every other character and every other run of blanks as given (allowedEq: the wrap positions of the value). "
+               "C03-nameless-locus: only the NAME and the LENGTH (whose tokens shift into the name) are excused: the strict reader reads the "
+               "implementation's text as it is, or with a placeholder name INSERTED into the implementation's own LOCUS line, and molecule type, topology, "
+               "division, date and every line after the LOCUS line (byte for byte) must be as given; Parse(Build(x)) likewise. Anything else is an "
+               "ordinary FAIL. If a reply on an input of either class PASSES (the recorded defect was repaired) and "
                "differs from the model, the case is drift: judge = skip, class suffix /kf-repaired — the model's bytes for a class input are not the standard, "
                "the property is. For a name-less record 'passes' means: Parse(Build(x)) returns the record (empty name) and the independent reader recovers "
-               "everything the record has, under whatever name the LOCUS line carries (no line can carry an empty name: nameless_class_fails)",
+               "everything the record has, under whatever name the LOCUS line carries (no line can carry an empty name: nameless_class_fails). The names an "
+               "unsound repair would use as placeholder (`.`, `unnamed`, `{unnamed}`, `-`, `?`, `bp`, a number) are generated as ordinary named records",
+               "round-trip exclusions are per field / per feature: a record with Circular && Linear is compared in everything but the topology, a feature "
+               "with a qualifier key holding `/` or a cached text that does not denote its structure is skipped alone (seqEquivPart; class tag /rt-part); "
+               "the round trip is judged on every record of the layout domain below 10^8 bases. Qualifier values may begin with, end with and contain "
+               "quotation marks (in the domain since f2612ce; Build writes a value on one line, so the parser's continuation-line logic — where an inner "
+               "quotation mark at a line end may still matter — is not reached by what Build writes; C01 judges it on its own layouts)",
                "layout domain: an extra keyword has at most 11 letters and a feature key at most 15 (the layout sets a key off from what follows by a blank; "
                "Build glues a longer one to its text, and Parse(Build(x)) already fails there); a feature without cached text carries a structure that is a "
                "location (wfLoc: no Join node without operands, no span on a node with operands) — for anything else the property demands nothing of the "
@@ -158,13 +165,17 @@ def qual_value(r, key):
         return ""
     if u < 0.2:
         return str(r.randint(1, 9999))
-    if u < 0.3:
+    if u < 0.26:
         # arbitrary printable ASCII, quotation marks only inside
         s = randword(r, "".join(chr(c) for c in range(32, 127)), loglen(r, 1, 120))
         if r.random() < 0.8:
             s = s.replace('"', "'")
         s = s.strip('"')
         return s
+    if u < 0.3:
+        # quotation marks at either end, doubled, alone (in the round-trip domain since f2612ce)
+        w = text(r, 40, p_empty=0.2)
+        return r.choice(['"%s"', '"%s', '%s"', 'he said "%s"', '""%s', '%s""', 'a""%s', '"', '""', '"""', '%s "x" "y"']).replace("%s", w)
     return text(r, 400, p_empty=0)
 
 
@@ -266,7 +277,7 @@ def gen_record(r, maxseq, maxfeat, maxmeta, cached_mode, shadow=False, covered=F
     n = loglen(r, 1, maxseq)
     alphabet = r.choice(["acgt", "acgt", "ACGT", "acgtnrykmswbdhv", "ACGTacgtNn", "acgu"])
     seq = randword(r, alphabet, n)
-    name = r.choice(["pUC19", "puc19", "NC_001416", "AB123456.1", "test", "x", "my-plasmid_v2", "pBR322",
+    name = r.choice(["pUC19", "puc19", "NC_001416", "AB123456.1", "test", "x", "my-plasmid_v2", "pBR322", r.choice([".", "unnamed", "-", "{unnamed}", "?"]),
                      randword(r, "abcdefghijklmnopqrstuvwxyz0123456789_", r.randint(1, 16)),
                      randword(r, "ABCEFGHJKLMOQUWXZ0123456789", r.randint(1, 10))])
     mol = r.choice(MOLTYPES + ["", "DNA", "DNA"])
@@ -447,7 +458,12 @@ def probes():
     yield P(refs=[("1", "", "", "", "", "", "x" * 66)])
     yield P(refs=[("1", "", "", "", "", "", "x" * 65 + " y")])
     yield P(refs=[("1", "", "", "", "", "", "x" * 70 + " y")])
-    for v in ('say "hi"', '"quoted"', 'in "mid" dle', " lead trail ", "x=y=z", "/slash", "", "a  b", "M" * 300, 'x"'):
+    # names that a repair of the name-less finding would use as its placeholder are ordinary names
+    for nm in (".", "unnamed", "{unnamed}", "-", "unknown", "?", "bp", "4", "12", "x"):
+        yield P(name=nm)
+        yield P(name=nm, seqlen="")
+    for v in ('say "hi"', '"quoted"', 'in "mid" dle', " lead trail ", "x=y=z", "/slash", "", "a  b", "M" * 300, 'x"', 'he said "hi"', '"', '""',
+              '"""', 'a""b', '"a', '""a', 'a""', '"a"b"', ' "a" '):
         yield P(feats=[F("CDS", "", "(0 9 0000)", [("note", v)])])
     yield P(feats=[F("CDS", "", "(0 9 0000)", [("b", "2"), ("a", "1"), ("ab", "3"), ("B", "4")]), F("gene", "", "(0 5 0000)", [])])
     for loc in ("(0 0 0000)", "(4 5 0000)", "(0 5 0011)", "(0 5 1000)", "(0 0 0100 (0 5 0000) (6 9 0000))", "(0 0 1100 (0 5 0000) (6 9 0000))",
